@@ -193,7 +193,8 @@ def r3(cx):
     good = len(locks) == 1 and locks[0].callee.name == "write" and len(inner) == 1 and cfg.dominates(locks[0].bb, inner[0].bb)
     if good:
         g = {locks[0].dest.l} | {t.dest.l for t in ci.calls("=unwrap") if any(k == "call" and o is locks[0] for k, o in Slice(ci, du).origins(t.args[0]))}
-        drops = {b.idx for b in ci.blocks if not b.cleanup and b.term.kind == "drop" and b.term.place.l in g and not b.term.place.p}
+        from vlib.cfg import release_blocks
+        drops = release_blocks(ci, DefUse(ci), g)
         good = not any(inner[0].bb in cfg.reach(ci.blocks[d].term.target) for d in drops)
     cx.check(good, "C19.R3", "cert:check_client_id:one-critical-section", ci.sp, "compare and advance are not under one write lock", note_ok="write lock held across compare + advance")
     cc = cx.mir.one(PKG, "ClientIds::check_client_id")
